@@ -27,6 +27,7 @@ RobustFam(c) ==
 
 Verdict(c) ==
     CASE c.inmod -> <<"REJECT", "InputsUnmodified", c.variant>>        \* the kernel wrote into the caller's array
+      [] "exc" \in DOMAIN c /\ c.exc # "" -> <<"REJECT", "NoException", c.exc>>
       [] c.op = "fixed" -> FixedVerdict(c.y, c.nd, c.lam, c.out, c.hasp, c.p, c.hints, c.hinted)
       [] c.op = "vcurve" -> WithSgrid(c, VLopt(c), VCurveVerdict(c.variant, c.y, c.nd, c.grid, c.lc, c.hasp, c.p, c.out, VLopt(c), c.pats, c.hints, c.hinted, c.swept))
       [] c.op = "gcv" -> WithSgrid(c, GLopt(c), GcvVerdict(c.y, c.nd, c.grid, c.robust, c.hasp, c.p, c.out, GLopt(c), c.hints, c.hinted))
